@@ -791,6 +791,21 @@ class Interp:
         if isinstance(v, Adt):
             if v.path and v.path not in self.fx.adts and v.path.split("::")[0] in self.fx.crates:
                 v.path = self.canon_path(v.path)
+            d = self.fx.adts.get(v.path) if v.path else None
+            if d and d.get("variants") and v.path.split("::")[0] in self.fx.crates:
+                # a value a rule built the way the type was declared on the pinned tree: a single-variant enum that became a struct (or
+                # the reverse) and positional fields that were given names (or the reverse) keep their positions
+                names = [x["name"] for x in d["variants"]]
+                if v.variant not in names and len(names) == 1:
+                    v.variant = names[0]
+                vd = next((x for x in d["variants"] if x["name"] == v.variant), None)
+                if vd is not None and v.fields:
+                    want = [f_["name"] for f_ in vd["fields"]]
+                    have = list(v.fields)
+                    if set(have) != set(want) and len(have) == len(want) and (all(k.isdigit() for k in have) or all(k.isdigit() for k in want)):
+                        if all(k.isdigit() for k in have):
+                            have = sorted(have, key=int)
+                        v.fields = {w: v.fields[h] for w, h in zip(want, have)}
             for k in list(v.fields):
                 v.fields[k] = self.canon_value(v.fields[k], depth + 1)
         elif isinstance(v, Vec):
